@@ -33,7 +33,7 @@ def S(ent, coll=False, req=False, casc=None, column=False):
 
 
 def gen_schema(rng):
-    nent = rng.choice([1, 2, 2, 2, 3, 3])
+    nent = rng.choice([1, 2, 2, 2, 3, 3, 4])
     nrel = rng.choice([1, 1, 2, 2, 3, 3, 4])
     rels = []
     for i in range(nrel):
@@ -62,8 +62,11 @@ def gen_schema(rng):
         else:
             r = {'kind': kind, 'sym': True, 'a': S(ea, coll=True)}
         rels.append(r)
-    # some entities get a composite primary key (k1, k2): references to them span two columns, link tables four
-    return {'nent': nent, 'rels': rels, 'cpk': [rng.random() < 0.3 for _ in range(nent)]}
+    # some entities get a composite primary key (k1, k2): references to them span two columns, link tables four;
+    # some entities are subclasses of an earlier one (single-table inheritance; relationships may sit on either level, references
+    # typed with the base class may hold subclass objects, which a fresh session first knows as stubs of the base class)
+    base = [None] + [rng.randrange(e) if rng.random() < 0.3 else None for e in range(1, nent)]
+    return {'nent': nent, 'rels': rels, 'cpk': [rng.random() < 0.3 for _ in range(nent)], 'base': base}
 
 
 class World:
@@ -90,14 +93,21 @@ class World:
                 dicts[d['ent']][name] = attr
                 self.attrs[(i, sn == 'b')] = attr
                 self.names[(i, sn == 'b')] = name
-        self.cpk = list(schema.get('cpk') or [False] * nent)
+        self.base = list(schema.get('base') or [None] * nent)
+        self.root = []
+        for e in range(nent): self.root.append(e if self.base[e] is None else self.root[self.base[e]])
+        cpk0 = list(schema.get('cpk') or [False] * nent)
+        self.cpk = [cpk0[self.root[e]] for e in range(nent)]          # the key is declared on the root of a hierarchy
         for e in range(nent):
+            if self.base[e] is not None: continue                      # key and plain columns are inherited
             if self.cpk[e]:
                 dicts[e]['k1'] = Required(int); dicts[e]['k2'] = Required(int)
                 dicts[e]['_indexes_'] = [core.Index(dicts[e]['k1'], dicts[e]['k2'], is_pk=True)]      # what PrimaryKey(k1, k2) in a class body does
             dicts[e]['tag'] = Required(int)
             dicts[e]['val'] = Optional(int)          # a plain column: pending UPDATEs around refused deletes
-        self.classes = [type('E%d' % e, (db.Entity,), dicts[e]) for e in range(nent)]
+        self.classes = []
+        for e in range(nent):
+            self.classes.append(type('E%d' % e, (db.Entity if self.base[e] is None else self.classes[self.base[e]],), dicts[e]))
         db.bind('sqlite', ':memory:')
         db.generate_mapping(create_tables=True)
         self.model_schema = []
@@ -109,15 +119,18 @@ class World:
             m = {'a': side((i, False)), 'sym': bool(r['sym'])}
             if not r['sym']: m['b'] = side((i, True))
             self.model_schema.append(m)
-        self.ent_attrs = [[] for _ in range(nent)]
-        for key in sorted(self.attrs):
-            self.ent_attrs[self.classes.index(self.attrs[key].entity)].append(key)
-        for e, cls in enumerate(self.classes):
-            real = [a.name for a in cls._attrs_ if a.reverse]
-            assert real == [self.names[k] for k in self.ent_attrs[e]], (real, self.ent_attrs[e])
+        # class table: the relationship attributes of every class in the order `_delete_` iterates them (`cls._attrs_`: inherited first)
+        key_of = {id(a): k for k, a in self.attrs.items()}
+        self.ent_attrs = [[key_of[id(a)] for a in cls._attrs_ if a.reverse] for cls in self.classes]
+        self.own_attrs = [[k for k in self.ent_attrs[e] if self.classes.index(self.attrs[k].entity) == e] for e in range(nent)]
+        self.class_table = [[list(k) for k in self.ent_attrs[e]] for e in range(nent)]
+        if not any(b is not None for b in self.base):
+            for e in range(nent): assert self.ent_attrs[e] == sorted(self.ent_attrs[e])
         self.ents = []          # model id -> entity index
         self.pks = []           # model id -> primary key
 
+    def isa(self, c, t):
+        return issubclass(self.classes[c], self.classes[t])
     def rev(self, key):
         return key if self.schema['rels'][key[0]]['sym'] else (key[0], not key[1])
     def side(self, key):
@@ -142,7 +155,7 @@ class World:
                             ok = True
                             for key, r in op[2]:
                                 key = tuple(key); s = self.side(key); t = self.side(self.rev(key))['ent']
-                                cands = [o for o in objs if self.classes.index(type(o)) == t]
+                                cands = [o for o in objs if self.isa(self.classes.index(type(o)), t)]
                                 if s['coll']:
                                     kw[self.names[key]] = [cands[x % len(cands)] for x in r] if cands else []
                                 elif r is None:
@@ -157,7 +170,7 @@ class World:
                             if not keys: continue
                             key = keys[op[2] % len(keys)]
                             t = self.side(self.rev(key))['ent']
-                            cands = [x for x in objs if self.classes.index(type(x)) == t]
+                            cands = [x for x in objs if self.isa(self.classes.index(type(x)), t)]
                             if not cands: continue
                             v = cands[op[3] % len(cands)]
                             if self.side(key)['coll']: getattr(o, self.names[key]).add(v)
@@ -207,35 +220,40 @@ class World:
             cur = con.cursor()
             cur.execute('PRAGMA foreign_keys'); res['fk_on'] = cur.fetchone()[0]
             cur.execute('PRAGMA foreign_key_check'); res['fk_check'] = [list(map(str, r)) for r in cur.fetchall()]
-            pk2id = []
+            pk2id = {}
             for e, cls in enumerate(self.classes):
+                if self.root[e] != e: continue
                 cur.execute('SELECT %s, "tag" FROM "%s"' % (', '.join('"%s"' % c for c in self.pk_cols(e)), cls._table_))
-                pk2id.append({tuple(r[:-1]): r[-1] for r in cur.fetchall()})
-            for e, cls in enumerate(self.classes):
+                pk2id[e] = {tuple(r[:-1]): r[-1] for r in cur.fetchall()}
                 res['rows'] += sorted(pk2id[e].values())
                 cur.execute('SELECT "tag", "val" FROM "%s"' % cls._table_)
                 res['vals'] += [[tag, v] for tag, v in cur.fetchall()]
-                for key in self.ent_attrs[e]:
+            for e, cls in enumerate(self.classes):
+                re_ = self.root[e]
+                for key in self.own_attrs[e]:
                     attr = self.attrs[key]
-                    t = self.side(self.rev(key))['ent']
+                    t = self.root[self.side(self.rev(key))['ent']]
                     if not attr.is_collection and attr.columns:
                         npk = len(self.pk_cols(e))
                         cur.execute('SELECT %s FROM "%s"' % (', '.join('"%s"' % c for c in self.pk_cols(e) + list(attr.columns)), cls._table_))
                         for r in cur.fetchall():
                             pk, v = tuple(r[:npk]), tuple(r[npk:])
+                            tag = pk2id[re_][pk]
+                            has_attr = tag < len(self.ents) and key in self.ent_attrs[self.ents[tag]]
                             if all(x is None for x in v): tv = None
                             elif v not in pk2id[t]:
-                                res['orphans'].append(['column', self.names[key], pk2id[e][pk], list(v)]); tv = 'MISSING'
+                                res['orphans'].append(['column', self.names[key], tag, list(v)]); tv = 'MISSING'
                             else: tv = pk2id[t][v]
-                            res['cols'].append([pk2id[e][pk], key[0], key[1], tv])
+                            if has_attr: res['cols'].append([tag, key[0], key[1], tv])
+                            elif tv is not None: res['orphans'].append(['column-of-another-class', self.names[key], tag, list(v)])
                     elif attr.is_collection and attr.reverse.is_collection and not key[1]:
                         owner_cols = list(attr.reverse_columns if attr.symmetric else attr.reverse.columns)
                         cur.execute('SELECT %s FROM "%s"' % (', '.join('"%s"' % c for c in owner_cols + list(attr.columns)), attr.table))
                         for r in cur.fetchall():
                             p, q = tuple(r[:len(owner_cols)]), tuple(r[len(owner_cols):])
-                            if p not in pk2id[e] or q not in pk2id[t]:
+                            if p not in pk2id[re_] or q not in pk2id[t]:
                                 res['orphans'].append(['link', self.names[key], list(p), list(q)]); continue
-                            res['links'].append([key[0], key[1], pk2id[e][p], pk2id[t][q]])
+                            res['links'].append([key[0], key[1], pk2id[re_][p], pk2id[t][q]])
             rollback()
         res['rows'].sort(); res['cols'].sort(key=lambda c: (c[0], c[1], c[2])); res['links'].sort(); res['vals'].sort()
         return res
@@ -364,10 +382,10 @@ def session_snapshot(w, cache):
         vals = {}
         for attr, v in (o._vals_ or {}).items():
             if isinstance(v, core.SetData): vals[attr.name] = (bool(v.is_fully_loaded), frozenset(x._pkval_ if x._pkval_ is not None else id(x) for x in v))
-            elif isinstance(v, core.Entity): vals[attr.name] = ('obj', type(v).__name__, v._pkval_)
+            elif isinstance(v, core.Entity): vals[attr.name] = ('obj', type(v)._root_.__name__, v._pkval_)
             else: vals[attr.name] = v
-        snap[(type(o).__name__, o._pkval_)] = (o._status_, o._save_pos_, vals)
-    queue = [None if x is None else (type(x).__name__, x._pkval_) for x in cache.objects_to_save]
+        snap[(type(o)._root_.__name__, o._pkval_)] = (o._status_, o._save_pos_, vals)
+    queue = [None if x is None else (type(x)._root_.__name__, x._pkval_) for x in cache.objects_to_save]
     return snap, queue
 
 
@@ -399,12 +417,16 @@ def run_deletes(w, state0, plan):
     with db_session:
         cache = w.db._get_cache()
         loaded = {}
+        # Pony limitation outside C15 (loud): an object first known as a stub of its BASE class and then modified (a delete cleared its
+        # reference) cannot be loaded any more: _get_from_identity_map_ throws NotImplementedError for the class change; such a
+        # step is skipped (the object counts as not addressable), everything else is still committed and compared
+        unloadable = w.unloadable = []
         def get(i):
             if i >= len(w.ents): return None          # plan of a shrinking candidate that lost the object
             if i not in loaded: loaded[i] = w.load(i)
             return loaded[i]
-        ident = {(w.classes[e].__name__, pk): i for i, (e, pk) in enumerate(zip(w.ents, w.pks))}
-        def mid(o): return ident.get((type(o).__name__, o._pkval_))
+        ident = {(w.classes[w.root[e]].__name__, pk): i for i, (e, pk) in enumerate(zip(w.ents, w.pks))}
+        def mid(o): return ident.get((type(o)._root_.__name__, o._pkval_))
         def deleted_now():
             return sorted(mid(o) for o in list(cache.objects) if isinstance(o, tuple(w.classes)) and o._status_ in DEL)
         for st in plan:
@@ -412,9 +434,13 @@ def run_deletes(w, state0, plan):
             if st[0] in ('load', 'mod'):
                 try:
                     if st[0] == 'load':
-                        for i in st[1]: get(i)
+                        for i in st[1]:
+                            try: get(i)
+                            except NotImplementedError: unloadable.append(i)
                     else:
-                        o = get(st[1])
+                        try: o = get(st[1])
+                        except NotImplementedError:
+                            unloadable.append(st[1]); o = None
                         if o is None: target_missing = True
                         else: o.val = st[2]
                 except Exception as e:
@@ -423,7 +449,10 @@ def run_deletes(w, state0, plan):
                               'queue': [None if x is None else mid(x) for x in cache.objects_to_save]})
                 continue
             try:
-                if st[0] == 'obj': o = get(st[1])        # loading the target is a query: Pony flushes pending changes first
+                if st[0] == 'obj':
+                    try: o = get(st[1])        # loading the target is a query: Pony flushes pending changes first
+                    except NotImplementedError:
+                        unloadable.append(st[1]); o = None
                 else: flush()                             # so does the SELECT of a query delete
             except Exception as e:                        # the flush of the earlier deletes failed: same as a failing commit
                 commit_err = 'flush:' + type(e).__name__
@@ -450,7 +479,7 @@ def run_deletes(w, state0, plan):
                     if bad:
                         # was the deleted object fully known to the session before the call, or a stub (primary key only)?
                         rname = attr.reverse.name
-                        stub = any((type(x).__name__, x._pkval_) not in before[0] or rname not in before[0][(type(x).__name__, x._pkval_)][2] for x in bad)
+                        stub = any((type(x)._root_.__name__, x._pkval_) not in before[0] or rname not in before[0][(type(x)._root_.__name__, x._pkval_)][2] for x in bad)
                         dangling.append([mid(o), attr.name, [mid(x) for x in bad], 'deleted-object-was-not-loaded' if stub else 'deleted-object-was-loaded'])
             steps.append({'err': err, 'missing': target_missing, 'dead': deleted_now(), 'diff': session_diff(before, after) if err else None,
                           'dangling': dangling})
@@ -468,7 +497,7 @@ def flat_plan(w, state, plan):
     for st in plan:
         if st[0] in ('load', 'mod'): out.append([])
         elif st[0] == 'obj': out.append([st[1]] if st[1] < len(w.ents) else [])
-        else: out.append(sorted(i for i in st[2] if i < len(w.ents) and w.ents[i] == st[1]))
+        else: out.append(sorted(i for i in st[2] if i < len(w.ents) and w.isa(w.ents[i], st[1])))
     return out
 
 
@@ -498,6 +527,9 @@ def _check_history(ctx, w, schema, prog, plan, state0, report):
         return None
     steps, commit_err = run_deletes(w, state0, plan)
     raw1 = w.raw()
+    if getattr(w, 'unloadable', None):
+        ctx.count('observation:modified-base-class-stub-cannot-be-loaded(NotImplementedError)')
+        if not ctx.extra.get('modified_stub_example'): ctx.extra['modified_stub_example'] = inp
     # ---------------- specification oracle
     state = state0
     viol = None
@@ -573,6 +605,11 @@ def _check_history(ctx, w, schema, prog, plan, state0, report):
                     cyc = cascade_cycle(w, state, C)
                     ctx.count('cascade-cycle-failure:%s:%s' % (rec['err'], 'cycle' if cyc else 'NO-CYCLE'))
                     if not viol: viol = ('cascade-cycle-raises' if cyc else 'delete-raised:%s' % rec['err'], {'step': st, 'closure': C, 'raised': rec['err']})
+                elif rec['err'] == 'NotImplementedError':
+                    # Pony limitation: the delete had to load an object the session knew as a stub of its BASE class and had already
+                    # modified (an earlier delete cleared its reference): _get_from_identity_map_ refuses the class change
+                    ctx.count('delete-raised:NotImplementedError')
+                    if not viol: viol = ('modified-base-class-stub-cannot-be-loaded', {'step': st, 'closure': C, 'raised': 'NotImplementedError'})
                 elif not viol:
                     viol = ('delete-raised:%s' % rec['err'], {'step': st, 'closure': C})
                 break
@@ -648,7 +685,7 @@ def tie(ctx, w, inp, state0, plan, groups, steps, commit_err, got):
         if rec['missing']: marks.append(None); continue
         marks.append((len(dels), len(grp))); dels += grp
     relkinds = None
-    JOBS.append(({'op': 'run', 'schema': w.model_schema, 'objs': state0, 'guard': guard_present(), 'deletes': dels},
+    JOBS.append(({'op': 'run', 'schema': w.model_schema, 'classes': w.class_table, 'objs': state0, 'guard': guard_present(), 'deletes': dels},
                  lambda out: tie_eval(ctx, inp, plan, groups, steps, marks, commit_err, got, out)))
 
 
@@ -680,6 +717,10 @@ def tie_eval(ctx, inp, plan, groups, steps, marks, commit_err, got, out):
             if rec['diff'] or sorted(i for i, o in enumerate(sub[-1]['objs']) if not o['alive']) != rec['dead']:
                 real_failed = True          # the real code did not restore the session: a property violation (reported by the oracle), not a model difference
                 return
+        elif rec['err'] == 'NotImplementedError' and merr is None:
+            # failure cause outside the model (Pony refuses the class change of a modified base-class stub); the oracle reports it
+            # under its own key and checks that nothing changed; the rest of this history is not compared
+            ctx.count('tie:failure-outside-model:NotImplementedError'); return
         else:
             ctx.divergence('outcome differs', dict(inp, step=st), model=merr, impl=rec['err']); return
     if commit_err: return
@@ -752,6 +793,7 @@ WHAT = {
     'commit-failed-after-successful-deletes': 'every delete succeeded but the commit raised',
     'failed-commit-changed-database': 'a commit that raised changed the database',
     'delete-raised': 'a delete raised an error the property does not allow',
+    'modified-base-class-stub-cannot-be-loaded': 'a delete raises NotImplementedError: it has to load an object the session knows only as a stub of its base class and has already modified (an earlier delete cleared its reference); Pony refuses the class change of an object with read/write bits',
     'bulk-refused-changed-database': 'a refused bulk delete changed the database',
 }
 EXPECT = {
@@ -831,6 +873,38 @@ def gen_refusal_case(rng):
         plan.insert(rng.choice([0, 0, len(plan) - 1]), ['mod', rng.choice(kids + kids + docs + [0]), k])
     if rng.random() < 0.8: plan.insert(0, ['load', list(range(n))])
     if rng.random() < 0.3: plan.append(['obj', rng.choice(kids + docs)])
+    return schema, prog, plan
+
+
+def gen_inheritance_case(rng):
+    """a family aimed at objects the session first knows as stubs of their BASE class: an owner (entity 0) holds the column of a
+    cascading one-to-one reference typed with the base class A (entity 1); the referenced object is of subclass B (entity 2),
+    which declares a relationship of its own to Item (entity 3) — cascading, clearing or refusing; the plan deletes the owner
+    (sometimes after touching / not touching the other objects), so `_delete_` reaches the B object through the stub"""
+    own = rng.choice(['items-required', 'items-required', 'items-optional', 'items-required-no-cascade', 'one-to-one-required', 'many-to-many'])
+    rels = [{'kind': 'o2o', 'sym': False, 'a': S(0, casc=True, column=True), 'b': S(1)}]
+    if own == 'items-required': rels.append({'kind': 'm2o', 'sym': False, 'a': S(2, coll=True), 'b': S(3, req=True)})
+    elif own == 'items-optional': rels.append({'kind': 'm2o', 'sym': False, 'a': S(2, coll=True, casc=rng.choice([None, True])), 'b': S(3)})
+    elif own == 'items-required-no-cascade': rels.append({'kind': 'm2o', 'sym': False, 'a': S(2, coll=True, casc=False), 'b': S(3, req=True)})
+    elif own == 'one-to-one-required': rels.append({'kind': 'o2o', 'sym': False, 'a': S(2, casc=rng.choice([None, True])), 'b': S(3, req=True)})
+    else: rels.append({'kind': 'm2m', 'sym': False, 'a': S(2, coll=True), 'b': S(3, coll=True)})
+    if rng.random() < 0.3: rels.append({'kind': 'm2o', 'sym': False, 'a': S(1, coll=True, casc=rng.choice([None, True, False])), 'b': S(3, req=rng.random() < 0.5)})
+    schema = {'nent': 4, 'rels': rels, 'cpk': [False, rng.random() < 0.3, False, False], 'base': [None, None, 1, None]}
+    prog = []
+    n = 0
+    owners, subs, items = [], [], []
+    for _ in range(rng.choice([1, 1, 2])):
+        prog += [['create', 2, []], ['flush']]; b = n; subs.append(b); n += 1
+        prog += [['create', 0, [[[0, False], len(subs) - 1]]], ['flush']]; owners.append(n); n += 1
+        for _ in range(1 if own == 'one-to-one-required' else rng.choice([1, 2])):
+            vals = [[[1, True], ([len(subs) - 1] if own == 'many-to-many' else len(subs) - 1)]]
+            if len(rels) > 2 and (rels[2]['b']['req'] or rng.random() < 0.5): vals.append([[2, True], len(subs) - 1])
+            prog += [['create', 3, vals], ['flush']]; items.append(n); n += 1
+    plan = [['obj', rng.choice(owners)]]
+    r = rng.random()
+    if r < 0.35: plan.insert(0, ['load', items[:rng.choice([1, len(items)])]])      # dependents loaded: they must be marked in the session
+    elif r < 0.5: plan.insert(0, ['mod', rng.choice(items), 5])
+    if rng.random() < 0.3: plan.append(['obj', rng.choice(items + owners)])
     return schema, prog, plan
 
 
@@ -922,7 +996,7 @@ def bulk_case(ctx, rng, schema, prog, fixed=None):
             b3 = (before['rows'], before['cols'], before['links']); a3 = (after['rows'], after['cols'], after['links'])
             if err and a3 != b3:
                 ctx.violation('a refused bulk delete changed the database', inp, observed={'before': b3, 'after': a3}, key='bulk-refused-changed-database:' + err)
-            recs.append((err, [i for i in ids if w.ents[i] == e], after))
+            recs.append((err, [i for i in ids if w.isa(w.ents[i], e)], after))
         def ev(out):
             if 'steps' not in out:
                 ctx.divergence('driver error', inp, model=out); return
@@ -935,7 +1009,7 @@ def bulk_case(ctx, rng, schema, prog, fixed=None):
                 if mgot != (after['rows'], after['cols'], after['links']):
                     ctx.divergence('rows after a bulk delete differ from dbDelete', inp, model=mgot, impl=(after['rows'], after['cols'], after['links'])); return
                 ctx.count('tie:bulk-agrees:%s' % ('refused' if err else 'ok'))
-        JOBS.append(({'op': 'bulk', 'schema': w.model_schema, 'objs': state0, 'stmts': [r[1] for r in recs]}, ev))
+        JOBS.append(({'op': 'bulk', 'schema': w.model_schema, 'classes': w.class_table, 'objs': state0, 'stmts': [r[1] for r in recs]}, ev))
     finally:
         w.db.disconnect()
 
@@ -1107,9 +1181,14 @@ def run(ctx):
     witnesses(ctx)
     nhist = ctx.scale(400, 6000)
     for h in range(nhist):
-        if rng.random() < 0.12:
-            schema, prog, plan = gen_refusal_case(rng)
-            ctx.case({'refusal-family': schema, 'plan': plan}, nontrivial=True, kind='refusal-family')
+        fam = rng.random()
+        if fam < 0.2:
+            if fam < 0.12:
+                schema, prog, plan = gen_refusal_case(rng)
+                ctx.case({'refusal-family': schema, 'plan': plan}, nontrivial=True, kind='refusal-family')
+            else:
+                schema, prog, plan = gen_inheritance_case(rng)
+                ctx.case({'inheritance-family': schema, 'plan': plan}, nontrivial=True, kind='inheritance-family')
             try:
                 v = check_history(ctx, schema, prog, plan)
             except (TypeError, core.ERDiagramError, core.MappingError) as e:
